@@ -380,10 +380,28 @@ func (x *Explorer) stepReturn(st *State, ret *ssa.Return) bool {
 			delete(st.cells, k)
 		}
 	}
+	// what was learnt about a memoised field of an object that outlives the callee is kept
+	type memoMove struct {
+		k memoKey
+		s Sym
+		f Fact
+	}
+	var moves []memoMove
+	for k, v := range st.memo {
+		if k.base.d >= d {
+			delete(st.memo, k)
+		} else if v.d >= d {
+			moves = append(moves, memoMove{k, Sym{d: k.base.d, i: 9, v: k.base.v}, st.facts[v]})
+		}
+	}
 	for s := range st.facts {
 		if s.d >= d {
 			delete(st.facts, s)
 		}
+	}
+	for _, m := range moves {
+		st.facts[m.s] = m.f
+		st.memo[m.k] = m.s
 	}
 	for k := range st.lenpos {
 		if k.d >= d {
@@ -397,11 +415,18 @@ func (x *Explorer) stepReturn(st *State, ret *ssa.Return) bool {
 			ok = ok.With(EOkUniqLive)
 		case rt&(TFresh|TDecoded) != 0:
 			ok = ok.With(EOkUniqTemp)
+			if ok.Has(EOkAccept) {
+				ok = ok.With(EOkAcceptTemp)
+			}
 		}
 	}
 	for i := range results {
 		if i < callee.Signature.Results().Len() && isErrorType(callee.Signature.Results().At(i).Type()) {
 			results[i].OkNil = results[i].OkNil.Union(ok)
+		}
+		// the schema handed out by the schema acquisition is the published one
+		if ok.Has(EOkSchema) && i < callee.Signature.Results().Len() && named(callee.Signature.Results().At(i).Type()) == x.P.A.Schema {
+			results[i].Tags |= TFromTbl
 		}
 	}
 	// a function without an error result grants its class facts unconditionally
